@@ -296,7 +296,9 @@ def gen_factory_file(rng):
 BAD_COORD_TEXTS = ["abc", "", "1.5", "x y", "é", "-", "1e3", "0x10", "None",
                    # texts that float() reads although int() does not: no integer position, hence no key (never an arithmetic error)
                    "inf", "-Infinity", "1e999", "nan", "12.0"]
-CONTIG_LISTS = [None, ["1", "2", "10", "X"], ["chr1", "chr2", "chr10"], ["10", "2", "X", "1"], ["chr10", "chr2", "chr1"], [str(i) for i in range(1, 13)] + ["X"]]
+CONTIG_LISTS = [None, ["1", "2", "10", "X"], ["chr1", "chr2", "chr10"], ["10", "2", "X", "1"], ["chr10", "chr2", "chr1"], [str(i) for i in range(1, 13)] + ["X"],
+                # a list that names a contig twice (concatenated lists): the first mention ranks it
+                ["1", "2", "10", "1"], ["chr1", "chr2", "chr10", "chr2", "chr1"], ["0", "1", "2"]]
 EXTRA_PRAGMAS = ["#center broad.mit.edu", "#n.samples 4", "#note sorted by the pipeline"]
 
 
